@@ -32,6 +32,8 @@ struct Ledger {
     n_violations: u64,
     /// largest overdraft in bytes
     worst_over: u64,
+    /// every overdrawn send so far was an Initial-bearing (padded) datagram
+    only_initial_overdrafts: bool,
     last_rcv_ms: u64,
     blocked_since_ms: Option<u64>,
 }
@@ -55,6 +57,10 @@ impl Case {
 pub fn gen_case(rng: &mut Rng, seed: u64, horizon_ms: u64) -> Case {
     let mut params = ParamCfg::default();
     params.mtu = *rng.pick(&[1200usize, 1252, 1350, 1452, 1500]);
+    // a large server flight (certificate chain) against a client whose Initial packet is large enough to be
+    // credited for several datagrams: bursts of many segments with a binding credit
+    params.cert_repeat = *rng.pick(&[1usize, 1, 4, 8, 12]);
+    params.alpn_pad = *rng.pick(&[0usize, 0, 20, 36]);
     params.idle_client_ms = 120_000;
     params.idle_server_ms = 120_000;
     let lat = Duration::from_millis(*rng.pick(&[1u64, 10, 40, 100]));
@@ -90,7 +96,7 @@ pub fn gen_case(rng: &mut Rng, seed: u64, horizon_ms: u64) -> Case {
     };
     let jobs = vec![Job { kind: JobKind::BidiEcho, size: rng.range(0, 50_000) as usize, chunk: 4096 }, Job { kind: JobKind::UniS2C, size: 200_000, chunk: 4096 }];
     Case {
-        label: format!("{label}; mtu {}; latency {} ms", params.mtu, lat.as_millis()),
+        label: format!("{label}; mtu {}; latency {} ms; chain x{}; alpn pad {}", params.mtu, lat.as_millis(), params.cert_repeat, params.alpn_pad),
         class: class.into(),
         spec: Spec { seed, params, c2s, s2c, jobs, datagrams: vec![], log: LogMode::Noop, with_qlog: true, deadline: Duration::from_millis(horizon_ms), clean_close: false },
     }
@@ -132,6 +138,12 @@ fn run_case(case: &Case) -> (Ledger, scenario::Outcome) {
                         g.max_ratio_milli = g.max_ratio_milli.max(g.sent * 1000 / g.received);
                     }
                     if g.sent > 3 * g.received {
+                        if g.n_violations == 0 {
+                            g.only_initial_overdrafts = true;
+                        }
+                        if !ev.kinds.contains('i') {
+                            g.only_initial_overdrafts = false;
+                        }
                         g.n_violations += 1;
                         g.worst_over = g.worst_over.max(g.sent - 3 * g.received);
                         if g.first_violation.is_none() {
@@ -168,8 +180,11 @@ fn judge(rep: &mut Report, case: &Case, l: &Ledger, out: &scenario::Outcome) {
         rep.violation(format!("C15.panic:{loc}"), format!("panic: {} at {loc}", p.message), case.to_json());
     }
     if let Some(fv) = &l.first_violation {
+        // An Initial-bearing datagram is padded to the full datagram size after the credit was applied, so the last
+        // datagram of a flight may exceed what is left by less than one datagram: a recorded defect of its own.
+        let sig = if l.only_initial_overdrafts && l.worst_over < 1500 { "C15.budget:padded-initial-overdraft".to_string() } else { format!("C15.budget:{}", case.class) };
         rep.violation(
-            format!("C15.budget:{}", case.class),
+            sig,
             format!(
                 "server sent {} bytes to an unvalidated address that had delivered {} bytes (first overdraft: {}; {} overdrawn sends, worst overdraft {} bytes) [{}]",
                 l.sent, l.received, fv, l.n_violations, l.worst_over, case.label
@@ -191,6 +206,15 @@ pub fn run(args: &Args, rep: &mut Report) {
         rep.evaluations += 1;
         judge(rep, &case, &l, &out);
         if args.flag("dump") {
+            for (vp, e) in out.events.iter().take(60) {
+                if let Ok(j) = serde_json::to_value(e) {
+                    let n = j["name"].as_str().unwrap_or("");
+                    if n.contains("packet_sent") || n.contains("packet_received") || n.contains("closed") || n.contains("state") || n.contains("dropped") {
+                        eprintln!("  {vp:?} {n} {}", serde_json::to_string(&j["data"]).unwrap_or_default().chars().take(260).collect::<String>());
+                    }
+                }
+            }
+            eprintln!("client_term {:?} server_term {:?} hs {:?}", out.shared.client_term, out.shared.server_term, out.shared.handshake_ms);
             for e in out.net.with(|n| n.sent.clone()) {
                 eprintln!("{:>6} ms {} -> {} len {} ord {} kinds {} fate {:?}", e.t.as_millis(), e.src, e.dst, e.len, e.ordinal, e.kinds, e.fate);
             }
